@@ -126,6 +126,11 @@ def run(ctx):
             else:
                 f.write("B %d %d %d %d\n" % (g["bx"], g["by"], g["bx"] + g["dx"], g["by"] + g["dy"]))
             glist.append(c)
+    nb = len([c for c in glist if "el" not in c["g"]])
+    ctx.add("bearing_cases", nb)
+    ctx.add("ellipsoid_cases", len(glist) - nb)
+    if nb == 0 or nb == len(glist):       # a thinning rule that removes one whole family would make its laws vacuous
+        raise vlib.ModelFailure("Geodesy.tla emitted %d bearing and %d ellipsoid cases" % (nb, len(glist) - nb))
     rc, out = vlib.sh([os.path.join(bdir, "drv_geo"), gp], timeout=1200)
     recs = [json.loads(l) for l in out.splitlines() if l.startswith("{")]
     if rc != 0 or len(recs) != len(glist):
@@ -159,8 +164,15 @@ def run(ctx):
                 ctx.violation("bearing|distance", "distance %s vs %s for offset (%d, %d)" % (d1, d2, dx, dy))
             if abs(((b2 - b1 - math.pi + math.pi) % (2 * math.pi)) - math.pi) > 1e-12:
                 ctx.violation("bearing|antisymmetry", "bearing(a,b) = %r, bearing(b,a) = %r for offset (%d, %d)" % (b1, b2, dx, dy))
-            if abs(d1 * math.cos(b1) - dx) > 1e-9 or abs(d1 * math.sin(b1) - dy) > 1e-9 or not (0 <= b1 < 2 * math.pi + 1e-15):
+            if abs(d1 * math.cos(b1) - dx) > 1e-9 or abs(d1 * math.sin(b1) - dy) > 1e-9 or not (0 <= b1 < 2 * math.pi + 1e-15):  # consistency of sine / cosine; the range itself is the next law
                 ctx.violation("bearing|consistency", "bearing %r distance %r are not consistent with dx = %d, dy = %d" % (b1, d1, dx, dy))
+            # range [0, 2 pi): lattice offsets are exact, so atan2 is either exactly 0 or at least 0.3 rad away from it and the
+            # normalisation s + 2 pi cannot round to 2 pi; a sight due north has bearing 0, never 2 pi
+            for bb, sx, sy in ((b1, dx, dy), (b2, -dx, -dy)):
+                if (sx or sy) and not (0 <= bb < 2 * math.pi):
+                    ctx.violation("bearing|range", "bearing %r for offset (%d, %d) is outside [0, 2 pi)" % (bb, sx, sy))
+                if sy == 0 and sx > 0 and bb != 0:
+                    ctx.violation("bearing|range", "bearing of a sight due north (offset (%d, 0)) is %r, not 0" % (sx, bb))
     ctx.sample({"literal": lits[len(lits) // 2]})
     ctx.sample({"angle": ra.cases[0]})
     ctx.assume("blh2xyz itself has no independent definition in TLA+ (trigonometry): mutually inverse but wrong conversions would be caught by the exact anchors only")
